@@ -211,6 +211,10 @@ class Builder:
                     raise JaqalError(
                         f"Cannot map {src_name} to {name}, {src_name} does not exist"
                     )
+                if not isinstance(src, (Register, Parameter)):
+                    raise JaqalError(
+                        f"Cannot map {src_name} to {name}, {src_name} is not a register"
+                    )
         if len(args) == 2:
             # Mapping a whole register or alias onto this alias
             name, src_name = args
